@@ -208,8 +208,8 @@ class SMUserList(UserList, ABC):
             else:
                 return False
 
-        elif isinstance(arg, self.__class__):
-            # instance of same type, clone it
+        elif isinstance(arg, self.__class__) and arg.shape == self.shape:
+            # instance of same type (or a subclass holding values of the same shape), clone it
             self.data = copy.copy(arg.data)
 
         elif arg.__class__ in convertfrom:
